@@ -6,7 +6,7 @@
     <id> set_max_nodes <k>|max     `bdd.max_nodes = k`  (`max` = `sys.maxsize`)
     <id> foa i v w                 on a manager with a capacity: `findOrAddCapL` (the LITERAL
     <id> ite g u v                 store / search / delete), `iteCapL`, `varCapL`; the answer is
-    <id> var name                  followed by ` LAYERS-DIFFER` when the abstract layer the
+    <id> var name / apply op u [v [w]]   followed by ` LAYERS-DIFFER` when the abstract layer the
                                    theorems are about (`findOrAddCap`, `iteCap`, `varCap`) gives
                                    another answer or another dump
     <id> swap a b                  on a manager with a capacity: `swapCapL` (finding F22)
@@ -16,6 +16,7 @@
   Every other line is `DD.stepLine`'s: `max_nodes` is consulted by `_next_free_int` only.
 -/
 import DD.Capacity
+import DD.Capacity2
 import DD.Driver
 open Std
 
@@ -102,6 +103,16 @@ def stepLineCap (s : CapSession) (line : String) : CapSession × String :=
         | "var", [name] =>
           if old then runCapOn s id sched (DRes.int <$> varCapO cap name) (DRes.int <$> varCapO cap name)
           else runCapOn s id sched (DRes.int <$> varCapL cap name) (DRes.int <$> varCap cap name)
+        | "apply", aop :: u :: rest =>
+          -- operators that do not quantify go through ONE `self.ite`; the quantifier aliases
+          -- call `quantify`, which has no capacity-aware model: refused here, never compared
+          if old then (s, "err OtherError") else
+          if isQuantOp aop then (s, "err NO-CAPACITY-MODEL") else
+          match parseInt? u, rest.mapM parseInt? with
+          | some u, some [] => runCapOn s id sched (DRes.int <$> applyCapL cap aop u none none) (DRes.int <$> applyCap cap aop u none none)
+          | some u, some [v] => runCapOn s id sched (DRes.int <$> applyCapL cap aop u (some v) none) (DRes.int <$> applyCap cap aop u (some v) none)
+          | some u, some [v, w] => runCapOn s id sched (DRes.int <$> applyCapL cap aop u (some v) (some w)) (DRes.int <$> applyCap cap aop u (some v) (some w))
+          | _, _ => (s, "err OtherError")
         | "swap", [a, b] =>
           -- `BDD.swap` goes through `find_or_add`: finding F22 (a refusal there leaves the manager
           -- half-swapped); the model with capacity says what exactly is left
